@@ -266,6 +266,8 @@ def main(prop, argv=None):
     ap.add_argument('--no-lean', action='store_true', help='development only: skip build and audit')
     a = ap.parse_args(argv)
     tier = a.tier if a.tier in ('quick', 'thorough') else 'quick'
+    if a.no_lean:
+        os.environ['VERIF_NO_FORMULAS'] = '1'
     seed = int(os.environ.get('VERIF_SEED', '0') or 0)
     pid = prop.ID
     ctx = Ctx(pid, tier, seed)
